@@ -4,7 +4,7 @@ use std::sync::atomic::{AtomicBool, AtomicPtr, AtomicU64, Ordering};
 use std::sync::Arc;
 
 use parking_lot::Mutex;
-use tokio::sync::{oneshot, Semaphore};
+use tokio::sync::{oneshot, OwnedSemaphorePermit, Semaphore};
 
 use crate::batch::Batch;
 use crate::error::{Error, Result};
@@ -39,16 +39,25 @@ struct CommitBatch {
 	count: u32, // Number of entries in the batch
 	applied: AtomicBool,
 	complete_tx: Mutex<Option<oneshot::Sender<Result<()>>>>,
+	// The flow-control permit of this commit. It lives as long as the batch: the
+	// semaphore bounds the queue only if a permit is not free again while its
+	// batch still occupies a slot, and a commit whose apply failed returns to its
+	// caller before the batch can be dequeued.
+	_permit: OwnedSemaphorePermit,
 }
 
 impl CommitBatch {
-	fn new(count: u32) -> (Arc<Self>, oneshot::Receiver<Result<()>>) {
+	fn new(
+		count: u32,
+		permit: OwnedSemaphorePermit,
+	) -> (Arc<Self>, oneshot::Receiver<Result<()>>) {
 		let (tx, rx) = oneshot::channel();
 		let commit = Arc::new(Self {
 			seq_num: AtomicU64::new(0),
 			count,
 			applied: AtomicBool::new(false),
 			complete_tx: Mutex::new(Some(tx)),
+			_permit: permit,
 		});
 		(commit, rx)
 	}
@@ -269,11 +278,14 @@ impl CommitPipeline {
 		self.write_stall.check().await?;
 
 		// Acquire permit for flow control
-		let _permit = self.commit_sem.acquire().await.map_err(|_| Error::PipelineStall)?;
+		let permit = Arc::clone(&self.commit_sem)
+			.acquire_owned()
+			.await
+			.map_err(|_| Error::PipelineStall)?;
 		#[cfg(feature = "verif")]
 		crate::verif::yield_async("commit.post_permit").await;
 
-		let (commit_batch, complete_rx) = CommitBatch::new(batch.count());
+		let (commit_batch, complete_rx) = CommitBatch::new(batch.count(), permit);
 
 		// === CRITICAL SECTION under write_mutex ===
 		//
